@@ -1,6 +1,6 @@
 (* C16 — property theorems only (parameter map of the optimizer). *)
 From Coq Require Import ZArith List Bool Lia.
-From PyQMC Require Import C16.Model C16.Proofs.
+From PyQMC Require Import C16.Model C16.Proofs C16.Duality.
 Import ListNotations. Open Scope Z_scope.
 
 (* flattening the selected parameters and restoring them is the identity *)
@@ -58,3 +58,20 @@ Proof.
   repeat constructor; cbn; try reflexivity; try discriminate; intros; repeat constructor.
 Qed.
 Print Assumptions C16_hypotheses_satisfiable.
+
+(* the same for ANY number of keys, in the code's concatenation order (all real coordinates key by key, then the imaginary coordinates
+   of the complex keys): the flattened derivative vector IS the derivative with respect to the flattened parameters.
+   lindot g p = sum over keys and entries of g * p (the first-order model of ln Psi); frozen = the entries the vector does not touch *)
+Theorem C16_gradient_duality_all_keys : forall (ks gs : list key) (x : list Z), Forall2 shape_ok ks gs ->
+  length x = length (serialize_gradients ks gs) ->
+  lindot gs (deserialize ks x) = cadd (frozen ks gs) (dotZ (serialize_gradients ks gs) x).
+Proof. exact gradient_duality. Qed.
+Print Assumptions C16_gradient_duality_all_keys.
+
+Example C16_duality_hypotheses_satisfiable :
+  let ks := [mkKey true [(1,2);(3,4);(5,6)] [true;false;true]; mkKey false [(7,0);(8,0)] [false;false]; mkKey false [(9,0);(10,0)] [false;true]] in
+  let gs := [mkKey true [(2,1);(0,3);(1,1)] [true;false;true]; mkKey false [(4,0);(5,0)] [false;false]; mkKey false [(6,0);(7,0)] [false;true]] in
+  Forall2 shape_ok ks gs /\ length (serialize_gradients ks gs) = 5%nat /\
+  lindot gs (deserialize ks [11;12;13;14;15]) = cadd (frozen ks gs) (dotZ (serialize_gradients ks gs) [11;12;13;14;15]).
+Proof. cbv zeta. split; [repeat constructor|]. split; vm_compute; reflexivity. Qed.
+Print Assumptions C16_duality_hypotheses_satisfiable.
